@@ -20,6 +20,7 @@ struct Ctx {
     Program *p; RunOpts o; RunResult *res; int n;
     std::vector<RankState> rs;
     std::vector<int> cp_arrived, cp_done, bar_arrived;
+    std::map<int, sim::Image> snaps;
 };
 
 void write_mem(void *p, int mt, long long v) {
@@ -294,7 +295,16 @@ struct Exec {
         case OP_BARRIER: MPI_Barrier(MPI_COMM_WORLD); break;
         case OP_CHECKPOINT:
             barrier(c.cp_arrived, opi, "checkpoint");
-            if (r == 0) { if (c.o.check_files && op.msnap) check_files(op, opi); c.cp_done[opi] = 1; }
+            if (r == 0) {
+                if (op.a[0] == 1) { auto ino = sim::g->fs.lookup(op.name); if (ino) c.snaps[op.file] = ino->vis; }
+                else if (op.a[0] == 2 && c.snaps.count(op.file)) {
+                    std::string path; for (size_t k = opi; k-- > 0;) if (c.p->ops[k].kind == OP_ABORT && !c.p->ops[k].skip && c.p->ops[k].file == op.file) { path = c.p->ops[k].name; break; }
+                    auto ino = sim::g->fs.lookup(path);
+                    if (!ino) fail("abort-restores", opi, "file " + path + " vanished after aborting a redefinition");
+                    auto d = sim::image_diff(c.snaps[op.file], ino->vis);
+                    if (!d.empty()) fail("abort-restores", opi, path + ": after ncmpi_abort of a redefinition the file differs from its state at ncmpi_redef in " + std::to_string(d.size()) + " byte range(s), first [" + std::to_string(d[0].first) + "," + std::to_string(d[0].second) + "), size " + std::to_string(c.snaps[op.file].size) + " -> " + std::to_string(ino->vis.size));
+                }
+                if (c.o.check_files && op.msnap) check_files(op, opi); c.cp_done[opi] = 1; }
             else { Ctx *cp = &c; sim::block_until("checkpoint-wait", [cp, opi]() { return cp->cp_done[opi] != 0; }); }
             break;
         case OP_CREATE: {
@@ -357,6 +367,22 @@ struct Exec {
         case OP_WAIT: do_wait(op, opi, false); break;
         case OP_CANCEL: do_wait(op, opi, true); break;
         default: break;
+        }
+        post_checks(op, opi);
+    }
+    void post_checks(Op &op, int opi) {
+        if (op.skip || op.file < 0 || op.file >= (int)me.ncid.size() || me.ncid[op.file] < 0 || !c.o.check_rc) return;
+        int ncid = me.ncid[op.file];
+        if (!op.exp_numrecs_lo.empty() && r < (int)op.exp_numrecs_lo.size()) {
+            int ul = -1; MPI_Offset len = -1;
+            if (ncmpi_inq_unlimdim(ncid, &ul) == NC_NOERR && ul >= 0 && ncmpi_inq_dimlen(ncid, ul, &len) == NC_NOERR) {
+                if (len < op.exp_numrecs_lo[r] || len > op.exp_numrecs_hi[r])
+                    fail("numrecs", opi, "reports " + std::to_string((long long)len) + " records after the call, model expects " + (op.exp_numrecs_lo[r] == op.exp_numrecs_hi[r] ? std::to_string(op.exp_numrecs_lo[r]) : "[" + std::to_string(op.exp_numrecs_lo[r]) + ".." + std::to_string(op.exp_numrecs_hi[r]) + "]"));
+            }
+        }
+        if (!op.exp_nreqs.empty() && r < (int)op.exp_nreqs.size()) {
+            int n = -1; if (ncmpi_inq_nreqs(ncid, &n) == NC_NOERR && n != op.exp_nreqs[r]) fail("nreqs", opi, "ncmpi_inq_nreqs reports " + std::to_string(n) + " pending requests, model has " + std::to_string(op.exp_nreqs[r]));
+            if (op.exp_usage[r] >= 0) { MPI_Offset u = -1; if (ncmpi_inq_buffer_usage(ncid, &u) == NC_NOERR && u != op.exp_usage[r]) fail("abuf-usage", opi, "ncmpi_inq_buffer_usage reports " + std::to_string((long long)u) + " bytes, pending buffered puts hold " + std::to_string(op.exp_usage[r])); }
         }
     }
     void drop_reqs(int file) { for (auto &q : me.reqs[file]) { if (q.ub) free_buf(*q.ub); q = PendingReq(); } }
@@ -430,6 +456,22 @@ void Exec::check_files(Op &op, int opi) {
         if (!cdf::decode_header(img, d)) { std::string s; for (auto &p : d.problems) s += p + "; "; fail("format", opi, f.path + ": header does not decode strictly: " + s); }
         if (d.version != f.format) fail("format", opi, f.path + ": version byte " + std::to_string(d.version) + " != requested CDF-" + std::to_string(f.format));
         if (c.o.layout_strict) { std::vector<std::string> pr; cdf::check_layout(d, img.size, pr); if (!pr.empty()) { std::string s; for (auto &p : pr) s += p + "; "; fail("layout", opi, f.path + ": " + s); } }
+        // the library's own reports must equal what is in the file
+        if (open) {
+            int slot = -1; for (size_t k = 0; k < m.files.size(); k++) if (m.files[k].open && m.files[k].path == f.path) slot = (int)k;
+            int ncid = slot >= 0 ? me.ncid[slot] : -1;
+            if (ncid >= 0) {
+                MPI_Offset hs = -1, he = -1, rs = -1;
+                ncmpi_inq_header_size(ncid, &hs); ncmpi_inq_header_extent(ncid, &he); ncmpi_inq_recsize(ncid, &rs);
+                if (hs != d.header_len) fail("report-header-size", opi, f.path + ": ncmpi_inq_header_size = " + std::to_string((long long)hs) + " but the header in the file is " + std::to_string(d.header_len) + " bytes");
+                long long first = -1; for (auto &dv : d.vars) if (first < 0 || dv.begin < first) first = dv.begin;
+                if (first >= 0 && he != first) fail("report-header-extent", opi, f.path + ": ncmpi_inq_header_extent = " + std::to_string((long long)he) + " but the first variable begins at " + std::to_string(first));
+                if (first < 0 && he < d.header_len) fail("report-header-extent", opi, f.path + ": header extent smaller than header");
+                bool anyrec = false; for (auto &dv : d.vars) anyrec = anyrec || dv.isrec;
+                if (anyrec && rs != d.recsize) fail("report-recsize", opi, f.path + ": ncmpi_inq_recsize = " + std::to_string((long long)rs) + " but the record size by the format rule is " + std::to_string(d.recsize));
+                for (size_t i = 0; i < d.vars.size(); i++) { MPI_Offset off = -1; ncmpi_inq_varoffset(ncid, (int)i, &off); if (off != d.vars[i].begin) fail("report-varoffset", opi, f.path + ": ncmpi_inq_varoffset('" + d.vars[i].name + "') = " + std::to_string((long long)off) + " but begin in the file is " + std::to_string(d.vars[i].begin)); }
+            }
+        }
         // schema
         if (d.dims.size() != f.dims.size()) fail("file-schema", opi, f.path + ": " + std::to_string(d.dims.size()) + " dimensions in file, model has " + std::to_string(f.dims.size()));
         for (size_t i = 0; i < f.dims.size(); i++) if (d.dims[i].name != f.dims[i].name || d.dims[i].len != f.dims[i].len) fail("file-schema", opi, f.path + ": dimension " + std::to_string(i) + " is (" + d.dims[i].name + "," + std::to_string(d.dims[i].len) + ") in file, model has (" + f.dims[i].name + "," + std::to_string(f.dims[i].len) + ")");
@@ -464,6 +506,7 @@ void Exec::check_files(Op &op, int opi) {
             }
         }
     };
+    for (auto &pth : m.absent) if (sim::g->fs.lookup(pth)) fail("abort-removes", opi, "file " + pth + " still exists after ncmpi_abort of a freshly created dataset");
     for (auto &f : m.files) if (f.open) check_one(f, true);
     for (auto &kv : m.disk) { bool reopened = false; for (auto &f : m.files) if (f.open && f.path == kv.first) reopened = true; if (!reopened) check_one(kv.second, false); }
 }
